@@ -781,6 +781,90 @@ def reduceRight (callable : Bool) (args : List Val) : M σ Ret := fun s =>
       pure (Ret.val acc)) s
   else .err .type s
 
+/-- Go string comparison `a < b` (bytes) -/
+def bytesLt : List Nat → List Nat → Bool
+  | [], [] => false
+  | [], _ :: _ => true
+  | _ :: _, [] => false
+  | a :: as, b :: bs => if a < b then true else if a > b then false else bytesLt as bs
+
+/-- the comparator of sort: `none` = no comparefn (compare by string), `some f` = the sign otto derives from
+    the comparefn's result (toIntSign(compare.call(undefined, x, y))); comparefn is assumed pure -/
+abbrev SortCmp := Option (Val → Val → Int)
+
+/-- sortCompare (builtin_array.go:338) -/
+def sortCompare (cmp : SortCmp) (s : σ) (index0 index1 : Nat) : Int :=
+  let jExists := O.has s index0
+  let kExists := O.has s index1
+  if !jExists && !kExists then 0
+  else if !jExists then 1
+  else if !kExists then -1
+  else
+    let x := O.get s index0
+    let y := O.get s index1
+    let jDefined := x != .undef
+    let kDefined := y != .undef
+    if !jDefined && !kDefined then 0
+    else if !jDefined then 1
+    else if !kDefined then -1
+    else
+      match cmp with
+      | none =>
+        let jv := E.ts x
+        let kv := E.ts y
+        if jv = kv then 0 else if bytesLt jv kv then -1 else 1
+      | some f => f x y
+
+/-- arraySortSwap (builtin_array.go:388) -/
+def sortSwap (index0 index1 : Nat) : M σ Unit := fun s =>
+  let jExists := O.has s index0
+  let kExists := O.has s index1
+  if jExists && kExists then
+    let jv := O.get s index0
+    let kv := O.get s index1
+    (do O.put index0 kv; O.put index1 jv) s
+  else if !jExists && kExists then
+    let value := O.get s index1
+    (do O.del index1; O.put index0 value) s
+  else if jExists && !kExists then
+    let value := O.get s index0
+    (do O.del index0; O.put index1 value) s
+  else .ok () s
+
+/-- arraySortQuickPartition (builtin_array.go:414): returns (cursor, cursor2) -/
+def sortPartition (cmp : SortCmp) (left right pivot : Nat) : M σ (Nat × Nat) := do
+  sortSwap O pivot right
+  let (cursor, cursor2) ← foldUp (fun index (c : Nat × Nat) => fun s =>
+    let comparison := sortCompare O E cmp s index right
+    if comparison < 0 then
+      (do sortSwap O index c.1
+          if c.1 < c.2 then sortSwap O index c.2
+          pure (c.1 + 1, c.2 + 1)) s
+    else if comparison = 0 then
+      (do sortSwap O index c.2
+          pure (c.1, c.2 + 1)) s
+    else .ok c s) left (right - left) (left, left)
+  sortSwap O cursor2 right
+  pure (cursor, cursor2)
+
+/-- arraySortQuickSort (builtin_array.go:437); `fuel` bounds the recursion depth (≥ right − left + 1) -/
+def sortQuick (cmp : SortCmp) : Nat → Nat → Nat → M σ Unit
+  | 0, _, _ => pure ()
+  | fuel+1, left, right =>
+    if left < right then do
+      let middle := left + (right - left) / 2
+      let (pivot, pivot2) ← sortPartition O E cmp left right middle
+      if pivot > 0 then sortQuick cmp fuel left (pivot - 1)
+      sortQuick cmp fuel (pivot2 + 1) right
+    else pure ()
+
+/-- builtinArraySort (builtin_array.go:447); `callable` = comparefn is undefined or callable -/
+def sort (callable : Bool) (cmp : SortCmp) : M σ Ret := fun s =>
+  let length := O.len s
+  if !callable then .err .type s
+  else if length > 1 then (do sortQuick O E cmp length 0 (length - 1); pure (Ret.val .recv)) s
+  else .ok (Ret.val .recv) s
+
 end Methods
 
 /-! ## The concrete instance: an object plus the callback script and call log -/
